@@ -149,7 +149,7 @@ def carry(repo, rep):
         return state
 
     walk(body_without_docstring(fn), {0: "ok", 1: "ok", 2: "ok"})
-    rep.floor("formatting returns in dms_str", nret[0], 6)
+    rep.floor("formatting returns in dms_str", nret[0], 4)
     for lo, hi in sorted(set(lost)):
         rep.violation("R-CARRY", site, "carry-lost:" + lo, "field `%s` is reset at its maximum without carrying 1 into `%s` (the value printed loses a unit)" % (lo, hi))
     if problems:
